@@ -124,9 +124,16 @@ pub fn play(builder: &Builder, scn: &Scenario) -> Vec<RunObs> {
 
 /// Plays a scenario on an existing bench (keeps its cache and store).
 pub fn play_on(bench: &Bench, builder: &Builder, scn: &Scenario) -> Vec<RunObs> {
-    bench.install_tals(builder, &scn.world);
+    play_on_from(bench, builder, scn, 0)
+}
+
+/// Plays the runs `from..` of a scenario on an existing bench.
+pub fn play_on_from(
+    bench: &Bench, builder: &Builder, scn: &Scenario, from: usize
+) -> Vec<RunObs> {
     let mut res = Vec::new();
-    for run in &scn.runs {
+    for (idx, run) in scn.runs.iter().enumerate().skip(from) {
+        bench.install_tals_for_run(builder, &scn.world, idx);
         rvcore::clock::set(run.now, 0);
         for tamper in &run.tamper {
             if let Some(ca) = scn.world.ca(&tamper.ca) {
@@ -204,11 +211,7 @@ impl Player {
             copy_dir(&self.memo[&key].0, &bench.cache);
         }
         let mut obs = self.memo[&key].1.clone();
-        let tail = Scenario {
-            world: scn.world.clone(), opts: scn.opts.clone(),
-            runs: scn.runs[prefix..].to_vec(),
-        };
-        obs.extend(play_on(&bench, &self.builder, &tail));
+        obs.extend(play_on_from(&bench, &self.builder, scn, prefix));
         obs
     }
 }
